@@ -456,6 +456,13 @@ partial def exec (tid : Nat) : M Unit := do
   let t ← getTask tid
   if t.state.isCompleted then throw .alreadyCompleted
   init tid
+  -- a task left pending by `init` is shown to its parent once (otherwise nothing would ever wake it up)
+  if (← getTask tid).state.isPending then
+    let w ← get
+    match parentOfTask w.p (← getTask tid) with
+    | some pt => discard <| review pt.tid
+    | none => pure ()
+    if !(← getTask tid).state.isPending then return
   run tid
   discard <| next tid
 
